@@ -456,6 +456,77 @@ async def case_message(spec: dict[str, Any], ctx: Ctx) -> None:
         env.cleanup()
 
 
+LOCKED_CMDS = [b'NOOP', b'CHECK', b'STATUS INBOX (MESSAGES UIDNEXT)',
+               b'FETCH 1 (FLAGS)', b'FETCH 1 (BODY[])',
+               b'APPEND INBOX {3+}\r\nabc', b'STORE 1 +FLAGS (\\Flagged)',
+               b'EXPUNGE', b'SELECT INBOX', b'EXAMINE INBOX', b'COPY 1 INBOX',
+               b'LSUB "" *', b'SUBSCRIBE INBOX', b'LIST "" *', b'CLOSE',
+               b'CREATE locked-new', b'SEARCH ALL', b'UID FETCH 1:* (FLAGS)',
+               b'LOGOUT']
+
+
+async def case_locked(spec: dict[str, Any], ctx: Ctx) -> None:
+    """maildir: another process holds one of the store's lock files for
+    longer than the server is willing to wait.  Every command must still be
+    answered (NO [TIMEOUT] is fine) or the connection ended with BYE; virtual
+    time is advanced while waiting."""
+    import os
+    rng = random.Random(spec['seed'])
+    env = await make_env(spec['backend'], {'testuser': 'testpass'})
+    try:
+        conn = await open_conn(env, 'selected', 1)
+        assert conn is not None
+        loop = conn.loop
+        udir = os.path.join(env.base_dir, 'testuser')
+        n = 1
+        for body in rng.sample(LOCKED_CMDS, 5):
+            if conn is None or conn.dead:
+                n += 1
+                conn = await open_conn(env, 'selected', n)
+                assert conn is not None
+            lock = os.path.join(udir, spec['lock'])
+            try:
+                os.close(os.open(lock, os.O_CREAT | os.O_EXCL | os.O_WRONLY))
+            except FileExistsError:
+                pass
+            before = len(conn.responses)
+            BUDGET.reset()
+            line = b'k%d ' % n + body + b'\r\n'
+            conn.feed(line)
+            ctx.count('lines')
+            ctx.count('locked_commands')
+            answered = False
+            for _ in range(60):
+                await loop.quiescent()      # type: ignore[attr-defined]
+                new = conn.responses[before:]
+                if conn.dead or any(r.kind == 'tagged' or r.cond == b'BYE'
+                                    for r in new):
+                    answered = True
+                    break
+                await loop.advance(1.0)     # type: ignore[attr-defined]
+            BUDGET.reset()
+            try:
+                os.unlink(lock)
+            except FileNotFoundError:
+                pass
+            what = '%r while %s is held by another process' % (
+                line, spec['lock'])
+            if conn.dead:
+                await loop.quiescent()      # type: ignore[attr-defined]
+                if judge_close(ctx, conn, what):
+                    return
+                continue
+            if not answered:
+                ctx.report('no-answer:lock-held',
+                           'no answer within 60 virtual seconds to ' + what,
+                           conn)
+                return
+            ctx.count('answered')
+        await canary(ctx, env)
+    finally:
+        env.cleanup()
+
+
 async def case_pump(spec: dict[str, Any], ctx: Ctx) -> None:
     """One header whose value is a pumped string (prefix + unit x n + tail),
     enumerated, not drawn: APPEND, FETCH of what is computed from headers,
@@ -587,6 +658,11 @@ class C06(Check):
                                'n': nn, 't': (k + seed) % len(gen.PUMP_TAILS),
                                'backend': 'maildir' if k % 4 == 0 else 'dict',
                                'seed': seed}
+        for i in range(60 if tier == 'quick' else 600):
+            yield {'kind': 'locked', 'seed': seed * 1_000_003 + i,
+                   'backend': 'maildir' if i % 2 else 'maildir-fs',
+                   'lock': 'dovecot-uidlist.lock' if i % 3
+                   else 'subscriptions.lock'}
         for i in range(n):
             r = rng.random()
             s = seed * 1_000_003 + i
@@ -633,7 +709,7 @@ class C06(Check):
         ctx = Ctx()
         fn = {'lines': case_lines, 'message': case_message,
               'sieve': case_sieve, 'cross': case_cross,
-              'pump': case_pump,
+              'pump': case_pump, 'locked': case_locked,
               'script-lines': script_lines,
               'script-message': script_message}[
                   spec.get('kind') or 'script-' + spec['script']]
